@@ -1,32 +1,34 @@
 import ComposeVerif.Lemmas.Select
 /-!
-# C15 — statements the unchanged tree falsifies
+# C15 — statements falsified by the tree as it was before the `fix:` commit of `WithSelectedServices`
 
-`WithSelectedServices` is **not** a function of its receiver and arguments: the `DisabledServices` half of its
-result depends on the iteration order of the service map (DESIGN §10 #11).  Witness: services `a → b` (a depends
+Pre-fix, `WithSelectedServices` (model `withSelectedServicesPre`) was **not** a function of its receiver and
+arguments: the `DisabledServices` half of its result depended on the iteration order of the service map
+(DESIGN §10 #11).  The repaired function is proved order independent in `Props/C15.lean` (`select_perm`); this file
+keeps the witness against the old loop.  Witness: services `a → b` (a depends
 on b) and `c`; select `c`.  Ranging `a, b, c` moves `a` to the disabled set with its edge to `b`; ranging
-`b, a, c` removes `b` from `a.depends_on` first.  Replayed on the real code by
+`b, a, c` removes `b` from `a.depends_on` first.  Replayed on the real code (then: failing; now: passing) by
 `corpus/C15/select-order-dependent-disabled-deps.json` (oracle key
 `nondeterministic:types.Project.WithSelectedServices:disabled.depends_on`).
 -/
 namespace CV.Sel.Neg
 
-def svc (deps : AL Dep) : Svc :=
-  { image := "i", profiles := [], deps := deps, nets := [], vols := [], secrets := [], build := none, configs := [] }
+def svc (name : String) (deps : AL Dep) : Svc :=
+  { name := name, image := "i", profiles := [], deps := deps, nets := [], vols := [], secrets := [], build := none, configs := [] }
 
-def a : String × Svc := ("a", svc [("b", ⟨true, "service_started"⟩)])
-def b : String × Svc := ("b", svc [])
-def c : String × Svc := ("c", svc [])
+def a : String × Svc := ("a", svc "a" [("b", ⟨true, "service_started"⟩)])
+def b : String × Svc := ("b", svc "b" [])
+def c : String × Svc := ("c", svc "c" [])
 
 def mk (services : AL Svc) : Proj :=
   { services := services, disabled := [], profiles := [], networks := [], volumes := [], secrets := [], configs := [] }
 
-/-- `op_perm` for `WithSelectedServices` at full strength: the same project (service map listed in another order)
+/-- `op_perm` for the pre-fix `WithSelectedServices` at full strength: the same project (service map listed in another order)
 and the same arguments give the same disabled services -/
 def SelectPermInvariant : Prop :=
   ∀ (p p' : Proj) (names : List String) (pol : Policy) (q q' : Proj),
     Partition p → SvcWF p → p.services.Perm p'.services → p.disabled = p'.disabled →
-    withSelectedServices p names pol = .ok q → withSelectedServices p' names pol = .ok q' →
+    withSelectedServicesPre p names pol = .ok q → withSelectedServicesPre p' names pol = .ok q' →
     ∀ k, lookup k q.disabled = lookup k q'.disabled
 
 theorem perm_witness : (mk [a, b, c]).services.Perm (mk [b, a, c]).services := List.Perm.swap _ _ _
@@ -35,13 +37,13 @@ theorem perm_witness : (mk [a, b, c]).services.Perm (mk [b, a, c]).services := L
 theorem select_not_perm_invariant : ¬SelectPermInvariant := by
   intro h
   have := h (mk [a, b, c]) (mk [b, a, c]) ["c"] .deps
-    (selectResult (mk [a, b, c]) ["c"]) (selectResult (mk [b, a, c]) ["c"])
+    (selectResultPre (mk [a, b, c]) ["c"]) (selectResultPre (mk [b, a, c]) ["c"])
     (by decide) (by decide) perm_witness rfl (by decide) (by decide) "a"
   revert this
   decide
 
 /-- what the two orders return for the disabled service `a` -/
-example : (lookup "a" (selectResult (mk [a, b, c]) ["c"]).disabled).map (fun s => keys s.deps) = some ["b"] := by decide
-example : (lookup "a" (selectResult (mk [b, a, c]) ["c"]).disabled).map (fun s => keys s.deps) = some [] := by decide
+example : (lookup "a" (selectResultPre (mk [a, b, c]) ["c"]).disabled).map (fun s => keys s.deps) = some ["b"] := by decide
+example : (lookup "a" (selectResultPre (mk [b, a, c]) ["c"]).disabled).map (fun s => keys s.deps) = some [] := by decide
 
 end CV.Sel.Neg
